@@ -348,7 +348,7 @@ fn compute(
     }
 }
 
-const HDR: &str = "DEFFRAME 0 \"x\":\n    SAMPLE-RATE: 4.0\nDEFFRAME 0 \"y\":\n    SAMPLE-RATE: 8.0\nDEFFRAME 1 \"x\":\n    SAMPLE-RATE: 4.0\nDEFFRAME 0 1 \"z\":\n    SAMPLE-RATE: 4.0\nDEFFRAME 2 \"n\":\n    INITIAL-FREQUENCY: 1.0\nDEFFRAME 2 \"s\":\n    SAMPLE-RATE: \"4.0\"\nDEFFRAME 2 \"l\":\n    sample-rate: 4.0\nDEFWAVEFORM w4:\n    1, 1, 1, 1\nDEFWAVEFORM w2:\n    1, 1\nDEFWAVEFORM ramp(%duration):\n    1, 1, 1, 1\nDEFWAVEFORM padded(%pad_left, %pad_right, %amp):\n    1, 1\nDEFCAL A 0:\n    PULSE 0 \"x\" flat(duration: 1.0, iq: 1.0)\nDEFCAL B 0 1:\n    FENCE 1\n    PULSE 0 1 \"z\" flat(duration: 1.0, iq: 1.0)\nDEFCAL C q:\n    DELAY q 0.5\n    A q\n    SHIFT-PHASE q \"x\" 1.0\nDEFCAL RX(%t) 0:\n    SHIFT-PHASE 0 \"x\" %t\n    PULSE 0 \"x\" w4\n    NONBLOCKING PULSE 0 \"y\" w4\nDEFCAL MEASURE 0 addr:\n    CAPTURE 0 \"y\" flat(duration: 0.25, iq: 1.0) addr\nDEFCAL G 0:\n    NONBLOCKING PULSE 0 \"y\" flat(duration: 1.0, iq: 1.0)\n    NONBLOCKING PULSE 0 \"x\" flat(duration: 10.0, iq: 1.0)\nDEFCAL H 0:\n    NONBLOCKING PULSE 0 \"x\" flat(duration: 4.0, iq: 1.0)\n    NONBLOCKING PULSE 0 \"y\" flat(duration: 0.5, iq: 1.0)\nDEFCAL KF 0 1:\n    NONBLOCKING PULSE 1 \"x\" flat(duration: 0.5, iq: 1.0)\n    NONBLOCKING PULSE 0 \"x\" flat(duration: 3.0, iq: 1.0)\n    NONBLOCKING CAPTURE 0 \"y\" flat(duration: 1.5, iq: 1.0) ro[0]\n    FENCE 0 1\nDEFCAL K3 0 1:\n    NONBLOCKING PULSE 0 \"x\" flat(duration: 2.0, iq: 1.0)\n    NONBLOCKING PULSE 1 \"x\" flat(duration: 5.0, iq: 1.0)\n    NONBLOCKING PULSE 0 \"y\" flat(duration: 0.25, iq: 1.0)\nDEFCAL N 0:\n    G 0\n    H 0\nDEFCAL D 0 1:\n    DELAY 0 \"x\" 2.0\n    DELAY 1 \"x\" 0.25\n    DELAY 0 \"y\" 1.0\n";
+const HDR: &str = "DEFFRAME 0 \"x\":\n    SAMPLE-RATE: 4.0\nDEFFRAME 0 \"y\":\n    SAMPLE-RATE: 8.0\nDEFFRAME 1 \"x\":\n    SAMPLE-RATE: 4.0\nDEFFRAME 0 1 \"z\":\n    SAMPLE-RATE: 4.0\nDEFFRAME 1 0 \"z\":\n    SAMPLE-RATE: 4.0\nDEFFRAME 2 \"n\":\n    INITIAL-FREQUENCY: 1.0\nDEFFRAME 2 \"s\":\n    SAMPLE-RATE: \"4.0\"\nDEFFRAME 2 \"l\":\n    sample-rate: 4.0\nDEFWAVEFORM w4:\n    1, 1, 1, 1\nDEFWAVEFORM w2:\n    1, 1\nDEFWAVEFORM ramp(%duration):\n    1, 1, 1, 1\nDEFWAVEFORM padded(%pad_left, %pad_right, %amp):\n    1, 1\nDEFCAL A 0:\n    PULSE 0 \"x\" flat(duration: 1.0, iq: 1.0)\nDEFCAL B 0 1:\n    FENCE 1\n    PULSE 0 1 \"z\" flat(duration: 1.0, iq: 1.0)\nDEFCAL C q:\n    DELAY q 0.5\n    A q\n    SHIFT-PHASE q \"x\" 1.0\nDEFCAL RX(%t) 0:\n    SHIFT-PHASE 0 \"x\" %t\n    PULSE 0 \"x\" w4\n    NONBLOCKING PULSE 0 \"y\" w4\nDEFCAL MEASURE 0 addr:\n    CAPTURE 0 \"y\" flat(duration: 0.25, iq: 1.0) addr\nDEFCAL G 0:\n    NONBLOCKING PULSE 0 \"y\" flat(duration: 1.0, iq: 1.0)\n    NONBLOCKING PULSE 0 \"x\" flat(duration: 10.0, iq: 1.0)\nDEFCAL H 0:\n    NONBLOCKING PULSE 0 \"x\" flat(duration: 4.0, iq: 1.0)\n    NONBLOCKING PULSE 0 \"y\" flat(duration: 0.5, iq: 1.0)\nDEFCAL KF 0 1:\n    NONBLOCKING PULSE 1 \"x\" flat(duration: 0.5, iq: 1.0)\n    NONBLOCKING PULSE 0 \"x\" flat(duration: 3.0, iq: 1.0)\n    NONBLOCKING CAPTURE 0 \"y\" flat(duration: 1.5, iq: 1.0) ro[0]\n    FENCE 0 1\nDEFCAL K3 0 1:\n    NONBLOCKING PULSE 0 \"x\" flat(duration: 2.0, iq: 1.0)\n    NONBLOCKING PULSE 1 \"x\" flat(duration: 5.0, iq: 1.0)\n    NONBLOCKING PULSE 0 \"y\" flat(duration: 0.25, iq: 1.0)\nDEFCAL N 0:\n    G 0\n    H 0\nDEFCAL D 0 1:\n    DELAY 0 \"x\" 2.0\n    DELAY 1 \"x\" 0.25\n    DELAY 0 \"y\" 1.0\n";
 
 const CORPUS: &[&str] = &[
     // schedule.rs tests (durations made dyadic)
@@ -401,6 +401,8 @@ const CORPUS: &[&str] = &[
     "DELAY 0 \"x\" 2*0.5\n",
     "RAW-CAPTURE 0 \"x\" 2*0.25 ro[0]\n",
     "PULSE 0 \"x\" erf_square(duration: 1.0, pad_left: 2*0.25, pad_right: 0.5)\nPULSE 0 \"x\" flat(duration: 1.0)\n",
+    // two frames equal up to qubit order are distinct: a blocking pulse on one uses it and blocks the twin
+    "PULSE 0 1 \"z\" flat(duration: 1.0)\nPULSE 1 0 \"z\" flat(duration: 0.5)\nDELAY 0 1 0.25\nSWAP-PHASES 0 1 \"z\" 1 0 \"z\"\nFENCE 0\n",
     "G 0\n",
     "H 0\n",
     "G 0\nH 0\n",
@@ -415,6 +417,7 @@ const ALPHABET: &[&str] = &[
     "PULSE 0 \"x\" flat(duration: 1.0)",
     "NONBLOCKING PULSE 0 \"y\" flat(duration: 0.5)",
     "PULSE 1 \"x\" w4",
+    "PULSE 1 0 \"z\" flat(duration: 0.5)",
     "NONBLOCKING PULSE 0 1 \"z\" flat(duration: 2.0)",
     "DELAY 0 \"x\" 0.25",
     "FENCE 0",
@@ -455,8 +458,9 @@ fn all_seqs(len: usize, base: u64, f: &mut impl FnMut(&[u64])) {
 
 fn random_line(rng: &mut Rng) -> String {
     const D: [&str; 7] = ["0.5", "1.0", "0.25", "2.0", "1.5", "0.0", "0.125"];
-    const FR: [&str; 8] =
-        ["0 \"x\"", "0 \"y\"", "1 \"x\"", "0 1 \"z\"", "2 \"n\"", "3 \"u\"", "2 \"s\"", "2 \"l\""];
+    const FR: [&str; 9] = [
+        "0 \"x\"", "0 \"y\"", "1 \"x\"", "0 1 \"z\"", "2 \"n\"", "3 \"u\"", "2 \"s\"", "2 \"l\"", "1 0 \"z\"",
+    ];
     let d = *rng.pick(&D);
     let f = *rng.pick(&FR);
     let nb = if rng.chance(1, 3) { "NONBLOCKING " } else { "" };
